@@ -18,6 +18,7 @@ JOBS = [
     ("py2v_design.py", "Gen/DesignGen.v"),
     ("py2v_readbatch.py", "Gen/ReadBatchGen.v"),
     ("py2v_samples.py", "Gen/SamplesGen.v"),
+    ("py2v_data.py", "Gen/DataGen.v"),
 ]
 if __name__ == "__main__":
     repo, coq = sys.argv[1], sys.argv[2]
